@@ -52,13 +52,14 @@ CHECKS = {
         note=TB + 'Hook: internal/eval/verif_hooks.go + x/exp/eval/verif_hooks.go (build tag verif, add-only).',
         technique='Coq structural-induction proof parametric in a table regenerated from the Go source + differential correspondence incl. Go-vs-Go oracle'),
     'C05': dict(
-        level='translation_validation', design='§6 C05',
-        text='Model of doBatch (variable binding order as a parameter, doPartial per prefix, fixIgnores, cloneSub, callback budget / cancellation) '
-             'in Impl/Batch.v on top of the partial evaluator whose soundness is proved for C06; the batch = brute-force theorem is not closed yet, so '
-             'this check is claimed at the level of validation: batch.Authorize vs the model vs a brute-force run of cedar.Authorize over the Cartesian '
-             'product inside the harness (multiset of request, values, decision, reason ids; exactly-once; stop after k+1 / k callbacks on failure / cancellation).',
-        note=TB + 'The Coq development contributes the executable model only (no closed theorem for batch yet).',
-        technique='executable Coq model of doBatch + differential run against Go and against brute force'),
+        level='proof', design='§6 C05',
+        text='Theorems (Properties/C05.v, *_partial*): the model of doBatch (binding order as a parameter, doPartial per prefix, fixIgnores, cloneSub, '
+             'callback budget / cancellation) delivers, in order and exactly once, for every element of the Cartesian product, the result of the ordinary '
+             'authorizer on the ORIGINAL policies under the substituted request (request, values, decision, reason ids); a failing callback / cancelled '
+             'context stops after exactly k+1 / k callbacks with that status. Restriction of the proof (not of the checks): unknowns are whole request '
+             'parts or record fields at any depth, not members of sets. Correspondence: batch.Authorize = model = brute-force cedar.Authorize inside the harness.',
+        note=TB + 'Built on the C06 soundness theorem. Unknowns nested in sets are covered by the correspondence and the brute-force oracle only.',
+        technique='Coq proof (batch = brute force, by induction on the variable list over the partial-evaluation soundness theorem) + differential run against Go and brute force'),
     'C06': dict(
         level='proof', design='§6 C06',
         text='Model of partial.go (tryPartial with projection flag, errVariable/errIgnore, partialAnd/Or/If, residualOperand, partialHasEval, '
@@ -67,6 +68,34 @@ CHECKS = {
              'generated template (unknown principal/resource/context, unknowns nested in records and sets, ignore).',
         note=TB + 'Ignore-widening is checked by the direct oracle only.',
         technique='Coq proof of soundness of the partial evaluator model + structural differential correspondence + completion oracle'),
+    'C07': dict(
+        level='exploration', design='§6 C07',
+        text='No Coq theorem yet (parser model under construction). Decided for now by an independent oracle: a reference renderer (py/render.py, the '
+             'grammar\'s own unparse: fully parenthesised and minimal, three layouts incl. line/block comments, random equivalent spellings) -> cedar-go '
+             'parser -> the AST must be the rendered one; ~60 texts outside the grammar must be rejected.',
+        note='Trusted: the reference renderer and the harness. Differential exploration, not proof.',
+        technique='differential exploration against an independent reference renderer (Coq parser model pending)'),
+    'C08': dict(
+        level='exploration', design='§6 C08',
+        text='No Coq theorem yet (printer/parser model under construction). Direct oracle on the Go code: rendering parses; effect, annotations, scope '
+             'preserved; reparsed policy evaluates identically on 4 environments; second rendering byte-identical; policy-set / list / stream order. '
+             'Population: every (parent, child, position) operator pairing, negative literals, keyword / non-identifier names, escapes, extension values.',
+        note='Trusted: the harness oracle. Found and repaired F9, F14, F28, F28b, F36; F16/F27/F30 are known findings.',
+        technique='Go-vs-Go round-trip exploration over a structured policy population (Coq printer/parser model pending)'),
+    'C09': dict(
+        level='exploration', design='§6 C09',
+        text='No Coq theorem yet (policy JSON model under construction). Direct oracle: decode(encode p) has the identical AST up to the documented '
+             'normalisation, second encoding identical, policy-set ids preserved, text<->JSON commute, all encodings evaluate identically.',
+        note='Trusted: the harness oracle (incl. its normalisation normJ). Found and repaired F19, F32, F37.',
+        technique='Go-vs-Go round-trip exploration (Coq JSON-tree model pending)'),
+    'C10': dict(
+        level='exploration', design='§6 C10',
+        text='Crash / hang / stack exhaustion are runtime behaviour no Gallina model can exhibit (Gallina functions are total by construction): decided by '
+             'structure-aware mutation of valid documents of every decoder, raw noise and 10^5-deep (thorough: 10^6) nestings, each case in a '
+             'recover()-guarded goroutine with a timeout in a child process; every accepted value is pushed through every encoder, the authorizer and '
+             'the validator.',
+        note='Trusted: the harness and its crash attribution. Found and repaired F10, F11, F12; F13 (no depth limit, 10^6 levels) is a known finding.',
+        technique='fault-injection style exploration of decoders in a guarded child process'),
     'C11': dict(
         level='proof', design='§6 C11',
         text='Theorems: veq is reflexive, symmetric (on canonical values), transitive and separates the ten types; mk_set builds exactly the distinct '
@@ -86,6 +115,60 @@ CHECKS = {
              'Cedar rendering of values of every type evaluates to an equal value.',
         note=TB + 'time.Date/UnixMilli and net/netip are stdlib: the calendar and the ip parser are models of them (ipaddr has correspondence only).',
         technique='Coq round-trip and exactness proofs over all int64 (calendar by era sweep lifted) + differential correspondence'),
+    'C13': dict(
+        level='proof', design='§6 C13',
+        text='Theorems (Properties/C13.v): on JSON trees, decode(encode v) is Cedar-equal to v for every json_safe value (any member order of encoded '
+             'sets, i.e. any table slot order), identical under the identity order, type tags preserved; the unrestricted statement is REFUTED with the '
+             'witness {"__extn": {...}} (known finding F17). Direct oracle on the Go code: values, entities, entity maps, requests, decisions, '
+             'diagnostics round-trip and re-encode byte-identically; all spellings (explicit, {fn,arg}, bare string, implicit entity, schema-guided '
+             'coercion) decode to equal values.',
+        note=TB + 'bytes <-> tree (encoding/json) and net/netip printing are stdlib: the ip round trip is a hypothesis of the theorem. Known: F16, F17, F27, F30.',
+        technique='Coq round-trip proof on JSON trees + Go round-trip / spelling oracle'),
+    'C14': dict(
+        level='proof', design='§6 C14',
+        text='Theorems (Properties/C14.v): in the model every Go map is a list in arbitrary order; evaluation (value AND which error surfaces) is invariant '
+             'under permutation of the entity store and of every parent set, record literals under permutation of their fields, authorization under '
+             'permutation of policies and entities together. Direct oracle: every operation repeated 40x in-process with shuffled insertion orders; '
+             'decision, reason/error sets with messages, and encoder bytes must be identical.',
+        note=TB + 'Error MESSAGE text is not modelled (only which sub-expression fails): F23 is a message-level known finding. Found and repaired F18, F19.',
+        technique='Coq permutation-invariance proofs + repetition oracle under Go map randomisation'),
+    'C15': dict(
+        level='exploration', design='§6 C15',
+        text='No Coq theorem yet (type-checker fragment model under construction). Direct oracle: random schemas x policies typed against them + '
+             'targeted historical shapes, strict and permissive; every accepted policy is evaluated on generated stores/requests that the validator itself '
+             'declares conforming and must not fail with a type / arity / unknown-function / missing attribute or tag error.',
+        note='Trusted: the schema/policy/data generators and the harness. Found and repaired F20, F24, F25; F29 is a known finding.',
+        technique='soundness oracle over generated schemas, policies and conforming data (Coq soundness proof of a fragment pending)'),
+    'C16': dict(
+        level='exploration', design='§6 C16',
+        text='Runtime property (termination / no crash): all 512 entity-type parent graphs and all 512 common-type reference graphs on 3 names, sampled '
+             'action-group graphs, random full-featured schemas; each resolved and used to validate policies (incl. set / record / extension literals '
+             'as JSON decoding produces), entities and requests in both modes, in a guarded child process with a timeout.',
+        note='Trusted: the harness. Found and repaired F21, F22.',
+        technique='exhaustive small-graph exploration in a guarded child process (Coq termination model pending)'),
+    'C17': dict(
+        level='exploration', design='§6 C17',
+        text='Direct oracle: generated schema texts and JSON schemas (namespaces, common types, nested optional records, sets, entity / extension references, '
+             'enums, action groups, annotations, quoted names, names shadowing builtins) -> both renderings parse back and resolve to the same resolved '
+             'schema (canonical comparison), second renderings byte-identical, format conversion commutes with resolution.',
+        note='Trusted: the generators and the canonical comparison of resolved schemas. F26 is a known finding.',
+        technique='Go-vs-Go round-trip exploration over generated schemas (Coq reference-resolution model pending)'),
+    'C18': dict(
+        level='exploration', design='§6 C18',
+        text='No Coq theorem yet (scanner model under construction). Direct oracle: cedar.NewDecoder over scripted readers (1..7-byte chunks, 1023/1024/1025, '
+             'zero-length reads, data with EOF, failure at 10+ byte positions) vs NewPolicyListFromBytes: same policies incl. positions or same error; '
+             'reader failure => error; positions = generator-computed byte offset / line / column in characters; documents with tokens, runes, comments '
+             'and 1.6 kB strings across the 1024-byte buffer boundaries.',
+        note='Trusted: the scripted reader and position bookkeeping of the generator.',
+        technique='schedule exploration of the streaming decoder against the whole-slice parser (Coq scanner refinement pending)'),
+    'C19': dict(
+        level='exploration', design='§6 C19',
+        text='Data races are a property of the Go memory model and cannot be exhibited by a Gallina model; explored under the race detector: N goroutines '
+             'share one policy set, entity map, request, batch template and values and run authorize / batch / marshal / inspect concurrently; each result is '
+             'compared with the sequential one; inputs are snapshotted (text, JSON, raw AST) before and after. The model half (fold / partial / batch are '
+             'pure functions that rebuild instead of updating) is what C04-C06 prove.',
+        note='Trusted: the Go race detector (complete only for the executions it sees) and the harness.',
+        technique='race-detector exploration with result comparison and input snapshots'),
     'C20': dict(
         level='proof', design='§6 C20',
         text='Theorems: Add/Remove refine the abstract id->policy function and keep ids unique; MarshalCedar order is the id-sorted permutation and '
